@@ -254,8 +254,9 @@ def c20(run):
                         "discriminator tables and checksum services are only read after start-up (the side goroutines register/remove unrelated names only)"]
     return run.finish("design model: Parallel.tla (NonInterference; deviations SharedScratch and ClearOnSide must fail). B: the drivers' histories (all 170 types, "
                       "frames with every registered body, streams) are run alone and then by 8-16 goroutines at once, each on its own objects and buffers, "
-                      "with two side goroutines doing Get/Registry/Remove on unrelated names, built with -race; TLC validates every parallel event with the "
-                      "sequential trace specification (C01/C06/C07 clauses) and requires it to equal its twin of the solo run. distinct_nontrivial = distinct "
+                      "with two side goroutines doing Get/Registry/Remove on unrelated names, built with -race (the parallel phase runs first, in a fresh "
+                      "process); TLC steps through every event with the sequential trace specification and requires every parallel event to equal its twin "
+                      "of the solo run (result, unread bytes, object). A defect that shows equally in the solo run is not C20's. distinct_nontrivial = distinct "
                       "(type, operation, outcome) triples among the parallel events.")
 
 
